@@ -18,9 +18,9 @@ CHECKS["C01"] = dict(
           "non-trivial = at least one constraint ends tight (a merge happened) or the instance is infeasible; "
           "for histories: a re-solve changed the positions. distinct = distinct 64-bit digest of the expanded case"),
     workloads=[
-        dict(harness="c01_vpsc", mode="instances", quick=300000, thorough=2000000, watchdog=30, san_thorough=60000),
+        dict(harness="c01_vpsc", mode="instances", quick=300000, thorough=20000000, watchdog=30, san_thorough=60000),
         dict(harness="c01_vpsc", mode="tiny", quick=TINY, thorough=TINY, fixed=True, watchdog=30, san_thorough=20000),
-        dict(harness="c01_vpsc", mode="histories", quick=60000, thorough=600000, watchdog=30, san_thorough=10000),
+        dict(harness="c01_vpsc", mode="histories", quick=60000, thorough=4000000, watchdog=30, san_thorough=10000),
     ],
     min_nontrivial=dict(quick=5000, thorough=50000),
     max_inconclusive=0.02,
@@ -78,7 +78,7 @@ CHECKS["C17"] = dict(
           "dijkstra (several sources), johnsons, floyd_warshall (n<=120) and ConstrainedFDLayout::readLinearD/G (n<=60, incl. non-positive eLengths) "
           "compared with a Bellman-Ford + union-find oracle. non-trivial = some pair's shortest path is shorter than any direct edge between the pair (multi-hop)"),
     workloads=[
-        dict(harness="c17_paths", mode="graphs", quick=20000, thorough=1000000, watchdog=60, san_thorough=20000),
+        dict(harness="c17_paths", mode="graphs", quick=20000, thorough=4000000, watchdog=60, san_thorough=20000),
         dict(harness="c17_paths", mode="regress", quick=1, thorough=1, fixed=True, watchdog=30),
     ],
     min_nontrivial=dict(quick=3000, thorough=30000),
@@ -98,8 +98,8 @@ CHECKS["C09"] = dict(
           "(none/singleton/several) x thirdPass x preset x/y borders x both overloads for removeoverlaps; and, for the constraint generators, sets n<=70 "
           "checked by longest paths in the generated constraint DAG. non-trivial = at least one pair overlaps initially"),
     workloads=[
-        dict(harness="c09_overlaps", mode="sets", quick=12000, thorough=600000, watchdog=120, san_thorough=15000),
-        dict(harness="c09_overlaps", mode="gen", quick=12000, thorough=400000, watchdog=60, san_thorough=10000),
+        dict(harness="c09_overlaps", mode="sets", quick=12000, thorough=1000000, watchdog=120, san_thorough=15000),
+        dict(harness="c09_overlaps", mode="gen", quick=12000, thorough=800000, watchdog=60, san_thorough=10000),
     ],
     min_nontrivial=dict(quick=3000, thorough=30000),
     max_inconclusive=0.01,
@@ -280,7 +280,7 @@ CHECKS["C03"] = dict(
           "shapeBufferDistance {0,2,5}, penalty vectors, nudging distances and options; every displayRoute() is judged by exact/eps-inset convex clipping. "
           "non-trivial = the straight segment between some connector's attachments is blocked by a shape"),
     workloads=[
-        dict(harness="c03_route", mode="valid", quick=16000, thorough=300000, watchdog=120, san_thorough=6000),
+        dict(harness="c03_route", mode="valid", quick=16000, thorough=1500000, watchdog=120, san_thorough=6000),
     ],
     min_nontrivial=dict(quick=3000, thorough=30000),
     max_inconclusive=0.03,
@@ -300,7 +300,7 @@ CHECKS["C04"] = dict(
     rule=("cases = scenes of 1-12 separated convex obstacles (gap>=1, integer coordinates), 1-4 polyline connectors between free points, segmentPenalty 0 / 5 / 50; "
           "route cost compared with Dijkstra on an independently built visibility graph (penalty 0: all paths; penalty>0: taut paths). "
           "non-trivial = some route has at least one bend"),
-    workloads=[dict(harness="c03_route", mode="shortest", quick=20000, thorough=250000, watchdog=120, san_thorough=4000)],
+    workloads=[dict(harness="c03_route", mode="shortest", quick=20000, thorough=3000000, watchdog=120, san_thorough=4000)],
     min_nontrivial=dict(quick=1200, thorough=30000),
     max_inconclusive=0.02,
     require_obs=["routes_judged", "routes_with_bends"],
@@ -319,7 +319,7 @@ CHECKS["C05"] = dict(
           "direction masks: axis-parallel, valid, masks honoured, compared with the grid optimum. bends: the complete table of Avoid::bends() (8 relative positions x 4 x 4 "
           "directions x 3 distances) against BFS minimum bend counts. non-trivial = route with >=2 bends or a detour longer than the Manhattan distance / table entry with true minimum >=1"),
     workloads=[
-        dict(harness="c03_route", mode="ortho", quick=40000, thorough=400000, watchdog=120, san_thorough=6000),
+        dict(harness="c03_route", mode="ortho", quick=40000, thorough=4000000, watchdog=120, san_thorough=6000),
         dict(harness="c03_route", mode="bends", quick=384, thorough=384, fixed=True, watchdog=30, san_thorough=384),
     ],
     min_nontrivial=dict(quick=3000, thorough=30000),
@@ -342,7 +342,7 @@ CHECKS["C06"] = dict(
           "setTransactionUse(false), segmentPenalty 0 and >0; after every processTransaction a freshly built Router for the same final scene is the reference model. "
           "non-trivial = at least one route changed during the history; distinct = digest of the recorded operation history"),
     workloads=[
-        dict(harness="c06_incr", mode="history", quick=30000, thorough=600000, watchdog=30, san_thorough=3000),
+        dict(harness="c06_incr", mode="history", quick=30000, thorough=1500000, watchdog=30, san_thorough=3000),
         dict(harness="c06_incr", mode="regress", quick=1, thorough=1, fixed=True, watchdog=60),
     ],
     min_nontrivial=dict(quick=8000, thorough=50000),
@@ -363,7 +363,7 @@ CHECKS["C10"] = dict(
     rule=("cases = orthogonal scenes built to force sharing: 1-3 rows x 2-4 columns of rectangles with corridors of width {6,12,30,60}, 2-10 connectors between centre pins "
           "and free points, idealNudgingDistance {1,4,10,25}, segmentPenalty {10,50,200}; half of the cases with the default nudging options, half over all 2^4 combinations; "
           "30% of scenes carry checkpoints. route() and displayRoute() are compared. non-trivial = two connectors without a common end are collinear in the raw routes"),
-    workloads=[dict(harness="c10_nudge", mode="nudge", quick=30000, thorough=400000, watchdog=120, san_thorough=6000)],
+    workloads=[dict(harness="c10_nudge", mode="nudge", quick=30000, thorough=2000000, watchdog=120, san_thorough=6000)],
     min_nontrivial=dict(quick=5000, thorough=30000),
     max_inconclusive=0.08,
     require_obs=["routes", "pairs_sharing_a_raw_stretch", "checkpoints_checked", "separated_pairs_checked", "two_sharer_pairs_checked"],
@@ -383,7 +383,7 @@ CHECKS["C11"] = dict(
           "explicit direction masks, default and explicit exclusivity, connection costs), 0-2 junctions, 1-8 connectors attached to pin classes (within exclusive capacity), junctions "
           "or free points, 0-3 checkpoints; then 0-4 transactions moving / resizing shapes; both routing modes. The monitor holds every pin it created and re-derives its position from "
           "the documented offset rule. non-trivial = a connector uses a class with >=2 pins, or has checkpoints"),
-    workloads=[dict(harness="c11_pins", mode="pins", quick=12000, thorough=400000, watchdog=120, san_thorough=6000)],
+    workloads=[dict(harness="c11_pins", mode="pins", quick=12000, thorough=1500000, watchdog=120, san_thorough=6000)],
     min_nontrivial=dict(quick=3000, thorough=40000),
     max_inconclusive=0.05,
     require_obs=["routes_checked", "pin_ends_checked", "pin_directions_checked", "junction_ends_checked", "checkpoints_checked", "moves", "resizes"],
@@ -402,7 +402,7 @@ CHECKS["C12"] = dict(
           "free space (improvement with moving only / with adding and deleting junctions; full rerouting registered by junction) or as a terminal list (full rerouting); followed by 0-3 "
           "transactions that move shapes. After every transaction the hyperedge graph is rebuilt from Router::connRefs, m_obstacles and ConnRef::endpointConnEnds(). "
           "non-trivial = the router reported new/deleted objects or moved a junction"),
-    workloads=[dict(harness="c12_hyper", mode="hyper", quick=24000, thorough=300000, watchdog=120, san_thorough=5000)],
+    workloads=[dict(harness="c12_hyper", mode="hyper", quick=24000, thorough=2500000, watchdog=120, san_thorough=5000)],
     min_nontrivial=dict(quick=1500, thorough=30000),
     max_inconclusive=0.05,
     require_obs=["connectors_checked", "transactions_changing_topology", "new_junctions_reported", "deleted_junctions_reported", "moves"],
@@ -423,7 +423,7 @@ CHECKS["C07"] = dict(
           "makeFeasible()+run(), runOnce()xk and ConstrainedMajorizationLayout::run(); overlap avoidance and neighbour stress on/off. Every constraint is re-evaluated by an independent "
           "evaluator on the final rectangle centres; it is excused only if an UnsatisfiableConstraintInfo naming that compound constraint was delivered. "
           "non-trivial = some constraint is violated by the initial placement"),
-    workloads=[dict(harness="c07_cola", mode="constraints", quick=20000, thorough=250000, watchdog=30, san_thorough=3000)],
+    workloads=[dict(harness="c07_cola", mode="constraints", quick=20000, thorough=800000, watchdog=30, san_thorough=3000)],
     min_nontrivial=dict(quick=1500, thorough=30000),
     max_inconclusive=0.03,
     require_obs=["constraints_checked.separation", "constraints_checked.alignment", "constraints_checked.boundary", "constraints_checked.fixed-relative", "layouts_reporting_unsatisfiable"],
@@ -440,7 +440,7 @@ CHECKS["C08"] = dict(
     rule=("cases = graphs n 1..35 with heavy initial overlap (crowded, coincident, nested rectangles), overlap avoidance on, makeFeasible() then run(); optional exemption groups; "
           "optional hierarchy of rectangular clusters (1-3 clusters, nesting depth <=2, padding/margins) and user constraints derived from a non-overlapping witness placement. "
           "Judged only when nothing was reported unsatisfiable. non-trivial = at least one pair of rectangles overlaps initially"),
-    workloads=[dict(harness="c07_cola", mode="overlap", quick=12000, thorough=150000, watchdog=120, san_thorough=2000)],
+    workloads=[dict(harness="c07_cola", mode="overlap", quick=12000, thorough=600000, watchdog=120, san_thorough=2000)],
     min_nontrivial=dict(quick=1500, thorough=30000),
     max_inconclusive=0.03,
     require_obs=["pairs_checked", "sibling_cluster_pairs_checked", "node_vs_foreign_cluster_checked"],
@@ -461,8 +461,8 @@ CHECKS["C13"] = dict(
           "real-valued or on a 5-unit grid (abutting or gap 5: corners of different nodes share coordinates), 1-6 passes alternating axes, one instance per pass given 1-3 successive "
           "goals (instance reuse) of node displacements with weight 1 or 10000; solve() is repeated until it reports no topology event and the state is judged after EVERY solve() return. "
           "non-trivial = the number of points of some edge path changed during the run (a bend was created or removed)"),
-    workloads=[dict(harness="c13_topology", mode="pipeline", quick=6000, thorough=250000, watchdog=120, san_thorough=3000),
-               dict(harness="c13_topology", mode="direct", flavour="rel", quick=100000, thorough=600000, watchdog=60)],
+    workloads=[dict(harness="c13_topology", mode="pipeline", quick=6000, thorough=400000, watchdog=120, san_thorough=3000),
+               dict(harness="c13_topology", mode="direct", flavour="rel", quick=100000, thorough=1500000, watchdog=60)],
     min_nontrivial=dict(quick=8000, thorough=150000),
     max_inconclusive=0.08,
     require_obs=["iterations_monitored", "edge_states_checked", "bends_checked", "side_signatures_checked", "cases_where_bends_were_created_or_removed", "solve_calls_monitored"],
@@ -482,7 +482,7 @@ CHECKS["C14"] = dict(
           "under libdialect/tests/graphs (connected, simple, <=120 nodes). After doHOLA returns: same node ids / edge multiset, exact node sizes, no overlap, every edge routed with axis-parallel "
           "segments ending at its end nodes and avoiding other nodes, and every separation constraint the graph writes out is satisfied (own interpreter of the TGLF sepco semantics). "
           "non-trivial = the graph has a cycle and a leaf (core plus peeled tree), or some edge is bent"),
-    workloads=[dict(harness="c14_hola", mode="random", quick=1600, thorough=60000, watchdog=300, san_thorough=600),
+    workloads=[dict(harness="c14_hola", mode="random", quick=1600, thorough=40000, watchdog=300, san_thorough=600),
                dict(harness="c14_hola", mode="shipped", quick=120, thorough=240, fixed=True, watchdog=300)],
     min_nontrivial=dict(quick=500, thorough=10000),
     max_inconclusive=0.06,
